@@ -127,8 +127,44 @@ Plan genCodec(const std::string& prop, int tier, uint64_t batchSeed, uint64_t id
     Rng& r = g.rng;
     const bool c01 = prop == "C01", c07 = prop == "C07", c08 = prop == "C08", c09 = prop == "C09", c10 = prop == "C10";
     g.cfg().set("rx", c01 ? 1 : 0);
+    g.bigFrames = c01 || c10;
 
     const bool wrapRun = c09 && r.chance(tier ? 3 : 1, 10);
+    if (c01 && r.chance(1, tier ? 300 : 1000))
+    {
+        // one encoder session that crosses the 16-bit sequence counter wrap with a SEGMENTED packet straddling it,
+        // everything decoded: 65530+ one-frame messages, then a packet of 3-6 segments starting a few frames before 65536
+        g.cfg().set("rx", 1);
+        auto ep = g.pickEndpoints(1);
+        g.addNode(1, 1, ep[0].first, ep[0].second).set("gap", 0).set("lat", 1);
+        const int64_t maxB = r.range(25, 40), per = maxB - 24;
+        const int64_t minB = r.chance(1, 2) ? 0 : r.range(0, maxB);
+        int64_t left = 65536 - r.range(1, 7);  // frames before the segmented packet
+        while (left > 0)
+        {
+            const int64_t n = std::min<int64_t>(left, r.range(9000, 20000));
+            Item& op = g.addOp(OP_ENC, 1, n);
+            op.set("min", minB).set("max", maxB).set("ver", 1).set("mode", 0);
+            Item m("m");
+            m.set("kind", 0).set("mtype", 1).set("ptype", 0x20).set("len", per).set("id", g.msgId()).set("rep", n);
+            g.nextMsgId += 20001;
+            op.sub.push_back(m);
+            left -= n;
+            if (left == 0)
+            {
+                Item big("m");
+                big.set("kind", 0).set("mtype", 1).set("ptype", 0x20).set("len", per * r.range(2, 5) + r.range(1, per)).set("id", g.msgId());
+                big.set("ts", static_cast<int64_t>(g.pickTs())).set("ifid", 77);
+                op.sub.push_back(big);
+                Item tail("m");
+                tail.set("kind", 0).set("mtype", 1).set("ptype", 0x20).set("len", per).set("id", g.msgId()).set("rep", 5);
+                g.nextMsgId += 10;
+                op.sub.push_back(tail);
+            }
+        }
+        g.cfg().set("wraprun", 1);
+        return g.finish();
+    }
     const size_t nNodes = c01 ? 1 + r.below(3) : (c09 || c10 ? 1 : 1 + r.below(2));
     auto eps = g.pickEndpoints(nNodes);
     for (size_t i = 0; i < nNodes; ++i)
